@@ -263,7 +263,12 @@ func applyOp(s network.Solver, op *JOp) (res bool, err error) {
 		err = s.LoadSensors(op.xs)
 		res = err == nil
 	case "act":
-		res, err = s.(*network.Network).ActivateSteps(op.N)
+		if op.N == 20 {
+			// the documented shorthand: Activate() = ActivateSteps(20)
+			res, err = s.(*network.Network).Activate()
+		} else {
+			res, err = s.(*network.Network).ActivateSteps(op.N)
+		}
 	case "fwd":
 		res, err = s.ForwardSteps(op.N)
 	case "rec":
